@@ -17,6 +17,7 @@ func init() {
 		ruleZ2(c, "C12.Z2")
 		ruleZ3(c, "C12.Z3")
 		ruleZ4(c, "C12.Z4")
+		ruleW1(c, "C12.Z5")
 	}
 }
 
@@ -224,6 +225,57 @@ func ruleZ2(c *Ctx, id string) {
 				// non-zero put: only indbmap, value from the allocation recursion
 				R.Check(fn == V.indbmap, id, FuncName(fn)+"|BnumPut(off,x)", P.Pos(call.Pos()), "indirect pointers are installed only by indbmap", "indbmap", "a new writer of indirect pointers")
 			}
+		}
+	}
+	// converse: every FreeBlock of a pointer taken from a slot clears that slot
+	for _, fn := range P.RepoFuncs("inode") {
+		for i, call := range P.CallsIn(fn, funcIs(V.FreeBlock)) {
+			a := stripConv(argN(call, 0))
+			key := fmt.Sprintf("%s|FreeBlock#%d clears the slot it took the pointer from", FuncName(fn), i+1)
+			// (a) blks[i]
+			if u, ok := a.(*ssa.UnOp); ok && u.Op == token.MUL {
+				if ia, ok := u.X.(*ssa.IndexAddr); ok {
+					if n, fl, base := fieldLoad(ia.X); n == V.Inode && fl == "blks" {
+						cleared := func(in ssa.Instruction) bool {
+							st, ok := in.(*ssa.Store)
+							if !ok {
+								return false
+							}
+							ia2, ok := st.Addr.(*ssa.IndexAddr)
+							if !ok || ia2.Index != ia.Index {
+								return false
+							}
+							n2, f2, b2 := fieldLoad(ia2.X)
+							k, isk := constInt(st.Val)
+							return n2 == V.Inode && f2 == "blks" && stripConv(b2) == stripConv(base) && isk && k == 0
+						}
+						R.Check(MustAfter(fn, cleared, nil)(call), id, key, P.Pos(call.Pos()), "after FreeBlock(blks[i]) every path stores 0 into blks[i]", "must-follow", "a freed block stays referenced by the inode: once the allocator reuses it two files share the block")
+						continue
+					}
+				}
+			}
+			// (b) pointer read from an indirect block (directly or through the recursive shrink)
+			var get *ssa.Call
+			if gc, ok := a.(*ssa.Call); ok && gc.Call.StaticCallee() == V.BnumGet {
+				get = gc
+			}
+			if rc, ok := a.(*ssa.Call); ok && rc.Call.StaticCallee() == indshrink {
+				if gc, ok := stripConv(argN(rc, 1)).(*ssa.Call); ok && gc.Call.StaticCallee() == V.BnumGet {
+					get = gc
+				}
+			}
+			if get == nil {
+				continue
+			}
+			buf, off := recvOf(get), argN(get, 0)
+			cleared := func(in ssa.Instruction) bool {
+				if !callTo(V.BnumPut)(in) || recvOf(in) != buf || argN(in, 0) != off {
+					return false
+				}
+				k, isk := constInt(argN(in, 1))
+				return isk && k == 0
+			}
+			R.Check(MustBefore(fn, cleared)(call) || MustAfter(fn, cleared, nil)(call), id, key, P.Pos(call.Pos()), "the indirect slot the pointer was read from is cleared (BnumPut(off, 0)) on every path on which the block is freed", "paired on every path", "a freed block stays referenced from the indirect block: growing the file again maps the freed block back instead of a hole, and after reuse two files share it")
 		}
 	}
 	// indshrink returns the root for freeing only when it is completely empty
